@@ -56,6 +56,7 @@ CASES = [
  ("C04-import-unknown-builtin", "C04", "unknown built-in module -> KeyError", f"ㅂ {E(77)} ㅂㅎㄷ", "E 5,-60"),
  ("C04-open-bad-fd", "C04", "opening a negative or oversized descriptor lets the host ValueError / TypeError escape", "ㄴㄱ ㄹ ㄱㄴㅎㄷ", "E 5,-63"),
  ("C04-open-huge-fd", "C04", "descriptor 2^31: host TypeError", f"{E(2**31)} ㄹ ㄱㄴㅎㄷ", "E 5,-63"),
+ ("C04-shift-huge", "C04", "1 << 2^100: host OverflowError", f"ㄴ {E(2**100)} (ㅂ ㅂㄷ ㅈ ㅂㅎㄹ) ㅎㄷ", "E 5,-54"),
 ]
 def special(cid):
     if cid == "C04-float-base0":
